@@ -27,6 +27,7 @@ import (
 	"strings"
 	"unicode/utf8"
 
+	compact_time "github.com/kstenerud/go-compact-time"
 	"github.com/kstenerud/go-concise-encoding/ce/events"
 	"github.com/kstenerud/go-concise-encoding/internal/chars"
 	"github.com/kstenerud/go-concise-encoding/internal/common"
@@ -263,6 +264,34 @@ func (_this *Context) ValidateMediaType(mediaType string) {
 			panic(fmt.Errorf("invalid media type [%v]", mediaType))
 		}
 	}
+}
+
+// Times must be valid, and an area/location time zone must be of the form CTE
+// can express: an upper case letter followed by letters, digits and _-./+
+func (_this *Context) ValidateTime(value compact_time.Time) {
+	if err := value.Validate(); err != nil {
+		panic(err)
+	}
+	if value.Type == compact_time.TimeTypeDate || value.Timezone.Type != compact_time.TimezoneTypeAreaLocation {
+		return
+	}
+	areaLocation := value.Timezone.LongAreaLocation
+	if !isAreaLocationFirstChar(areaLocation[0]) {
+		panic(fmt.Errorf("invalid time zone [%v]", areaLocation))
+	}
+	for i := 1; i < len(areaLocation); i++ {
+		if !isAreaLocationChar(areaLocation[i]) {
+			panic(fmt.Errorf("invalid time zone [%v]", areaLocation))
+		}
+	}
+}
+
+func isAreaLocationFirstChar(ch byte) bool {
+	return ch >= 'A' && ch <= 'Z'
+}
+
+func isAreaLocationChar(ch byte) bool {
+	return (ch >= 'a' && ch <= 'z') || (ch >= 'A' && ch <= 'Z') || (ch >= '0' && ch <= '9') || strings.IndexByte("_-./+", ch) >= 0
 }
 
 func isMediaTypeFirstChar(ch byte) bool {
